@@ -276,12 +276,16 @@ class Validator:
                 fd = td.field(n)
                 if fd is None:
                     self.err("5.6.2", "unknown input field %s on %s" % (n, td.name))
+                    self.err("5.6.1", "object literal with the unknown field %s is not coercible to %s" % (n, td.name))
                     self.value(None, x, where, False, in_const)
                 else:
                     self.value(fd.type, x, where, fd.default is not None, in_const)
             for fd in td.fields:
                 if fd.type[0] == "nn" and fd.default is None and fd.name not in names:
                     self.err("5.6.4", "required input field %s.%s missing" % (td.name, fd.name))
+                    # ... which also makes the literal not coercible to the type: a violation of 5.6.1 (values of correct type), the
+                    # rule under which the project documents (and performs) this check
+                    self.err("5.6.1", "object literal without the required field %s is not coercible to %s" % (fd.name, td.name))
             return
         if isinstance(v, (ListV, ObjV)):
             self.err("5.6.1", "list/object literal for %s at %s" % (td.name, where))
